@@ -98,14 +98,15 @@ Lemma pre_no_close e : pre_event e = true -> is_close e = false.
 Proof. destruct e; simpl; congruence. Qed.
 
 Lemma close_events_no_start w : count is_start (close_events w) = 0.
-Proof. destruct w as [| id [|] c | m f r [id|]]; reflexivity. Qed.
+Proof. destruct w as [| id [|] c | m f r [id|] |]; reflexivity. Qed.
 
 Lemma consume_no_start w st : count is_start (consume w st) = 0.
 Proof.
-  destruct w as [cs | id hc content | m f r cl]; simpl.
+  destruct w as [cs | id hc content | m f r cl |]; simpl.
   - reflexivity.
   - destruct hc; reflexivity.
   - destruct (iter_rest m st r) as [c raised]. destruct raised, cl; reflexivity.
+  - reflexivity.
 Qed.
 
 (* ------------------------------------------------------------------ *)
@@ -143,7 +144,8 @@ Lemma wsgi_terminates p : wsgi env eh p <> WsOutOfFuel.
 Proof.
   unfold wsgi, wsgi_tail, wsgi_tail_gen. destruct (handle p) as [[evH st] o].
   destruct (cast env eh cast_fuel 1 o st) as [w st' b| |] eqn:Hc.
-  - destruct (if nobody (s_code st') || e_head env then (close_events w, WList []) else ([], w)) as [evC w'].
+  - destruct (is_escape w); [discriminate|].
+    destruct (if nobody (s_code st') || e_head env then (close_events w, WList []) else ([], w)) as [evC w'].
     destruct (headerlist st'); [discriminate|].
     unfold catchall. destruct (e_head env); [discriminate|].
     destruct (utf8_encode (critical_page (e_path env))); discriminate.
@@ -174,13 +176,20 @@ Inductive wsgi_case (p : program) : wsgi_res -> Prop :=
     handle p = (evH, st0, o) ->
     cast env eh cast_fuel 1 o st0 = CDone w0 st wrote ->
     headerlist st = None ->
-    wsgi_case p (catchall env (evH ++ (if suppress st then close_events w0 else [])) st).
+    wsgi_case p (catchall env (evH ++ (if suppress st then close_events w0 else [])) st)
+| WC_passed evH st0 o w0 st wrote :
+    (* _cast did not return: KeyboardInterrupt / SystemExit / MemoryError / a non-Exception goes to the server *)
+    handle p = (evH, st0, o) ->
+    cast env eh cast_fuel 1 o st0 = CDone w0 st wrote ->
+    is_escape w0 = true ->
+    wsgi_case p (WsPassed evH).
 
 Lemma wsgi_cases p : wsgi_case p (wsgi env eh p).
 Proof.
   unfold wsgi, wsgi_tail, wsgi_tail_gen. destruct (handle p) as [[evH st0] o] eqn:Hh.
   destruct (cast env eh cast_fuel 1 o st0) as [w0 st wrote| |] eqn:Hc.
-  - fold (suppress st). destruct (headerlist st) as [hl|] eqn:Hl.
+  - destruct (is_escape w0) eqn:He; [eapply WC_passed; eassumption|].
+    fold (suppress st). destruct (headerlist st) as [hl|] eqn:Hl.
     + pose proof (WC_normal p _ _ _ _ _ _ _ Hh Hc Hl) as H.
       destruct (suppress st); exact H.
     + pose proof (WC_catch_headers p _ _ _ _ _ _ Hh Hc Hl) as H.
@@ -207,6 +216,7 @@ Definition all_events (r : wsgi_res) : list event :=
   match r with
   | WsOk ev w st _ => ev ++ consume w st
   | WsEscaped ev => ev
+  | WsPassed ev => ev
   | WsOutOfFuel => []
   end.
 
@@ -227,9 +237,19 @@ Proof.
     rewrite ?count_app, H0; reflexivity.
 Qed.
 
-Lemma one_start_response p : count is_start (all_events (wsgi env eh p)) = 1.
+Definition passed (r : wsgi_res) : bool := match r with WsPassed _ => true | _ => false end.
+
+Lemma catchall_not_passed ev st : passed (catchall env ev st) = false.
+Proof. unfold catchall. destruct (e_head env); [reflexivity|]. destruct (utf8_encode _); reflexivity. Qed.
+
+(* exactly one start_response — unless an exception that the framework lets through on purpose
+   (KeyboardInterrupt, SystemExit, MemoryError, a non-Exception) went to the server: then none *)
+Lemma one_start_response p :
+  count is_start (all_events (wsgi env eh p)) = if passed (wsgi env eh p) then 0 else 1.
 Proof.
-  destruct (wsgi_cases p) as [evH st0 o w0 st wrote hl Hh Hc Hl | evH st0 o Hh Hc | evH st0 o w0 st wrote Hh Hc Hl].
+  destruct (wsgi_cases p) as [evH st0 o w0 st wrote hl Hh Hc Hl | evH st0 o Hh Hc | evH st0 o w0 st wrote Hh Hc Hl
+                             | evH st0 o w0 st wrote Hh Hc He];
+    rewrite ?catchall_not_passed; cbn [passed].
   - cbn [all_events]. rewrite !count_app.
     rewrite (pre_not is_start evH pre_no_start (handle_pre _ _ _ _ Hh)).
     rewrite consume_no_start.
@@ -238,6 +258,7 @@ Proof.
   - apply count_start_catchall. rewrite count_app.
     rewrite (pre_not is_start evH pre_no_start (handle_pre _ _ _ _ Hh)).
     destruct (suppress st); rewrite ?close_events_no_start; reflexivity.
+  - cbn [all_events]. exact (pre_not is_start evH pre_no_start (handle_pre _ _ _ _ Hh)).
 Qed.
 
 
@@ -252,7 +273,7 @@ Qed.
 
 Lemma close_events_only_close w e : In e (close_events w) -> is_close e = true.
 Proof.
-  destruct w as [| id [|] c | m f r [id|]]; simpl; intros H; try contradiction;
+  destruct w as [| id [|] c | m f r [id|] |]; simpl; intros H; try contradiction;
     destruct H as [<-|[]]; reflexivity.
 Qed.
 
@@ -260,7 +281,8 @@ Lemma no_body_head p ev w st b :
   wsgi env eh p = WsOk ev w st b -> e_head env = true -> w = WList [].
 Proof.
   intros H Hh.
-  destruct (wsgi_cases p) as [evH st0 o w0 st1 wrote hl _ _ _ | evH st0 o _ _ | evH st0 o w0 st1 wrote _ _ _].
+  destruct (wsgi_cases p) as [evH st0 o w0 st1 wrote hl _ _ _ | evH st0 o _ _ | evH st0 o w0 st1 wrote _ _ _
+                             | evH st0 o w0 st1 wrote _ _ _]; [| | |discriminate H].
   - inversion H; subst. unfold suppress. rewrite Hh, orb_true_r. reflexivity.
   - destruct (catchall_cases evH st0) as [[_ E]|[[E _]|[E _]]]; congruence.
   - destruct (catchall_cases (evH ++ (if suppress st1 then close_events w0 else [])) st1) as [[_ E]|[[E _]|[E _]]];
@@ -283,7 +305,8 @@ Lemma no_body_status p ev w st b line hl :
   w = WList [] /\ line = s_line st.
 Proof.
   intros H Hin Hn.
-  destruct (wsgi_cases p) as [evH st0 o w0 st1 wrote hl1 Hh _ _ | evH st0 o Hh _ | evH st0 o w0 st1 wrote Hh _ _].
+  destruct (wsgi_cases p) as [evH st0 o w0 st1 wrote hl1 Hh _ _ | evH st0 o Hh _ | evH st0 o w0 st1 wrote Hh _ _
+                             | evH st0 o w0 st1 wrote _ _ _]; [| | |discriminate H].
   - inversion H; subst. unfold suppress. rewrite Hn. simpl. split; [reflexivity|].
     apply in_app_or in Hin. destruct Hin as [Hin|Hin].
     + exfalso. exact (pre_not_in _ (EvStart line hl false) (handle_pre _ _ _ _ Hh) eq_refl Hin).
@@ -322,17 +345,18 @@ Definition is_close_of (id : nat) (e : event) : bool :=
 
 Lemma close_events_closer w :
   close_events w = match closer w with Some id => [EvClose id] | None => [] end.
-Proof. destruct w as [| id [|] c | m f r [id|]]; reflexivity. Qed.
+Proof. destruct w as [| id [|] c | m f r [id|] |]; reflexivity. Qed.
 
 Lemma consume_closes (f : event -> bool) w st :
   f EvIterRaise = false -> (forall c, f (EvBody c) = false) ->
   count f (consume w st) = count f (match closer w with Some id => [EvClose id] | None => [] end).
 Proof.
-  intros H1 H2. destruct w as [cs | id hc content | m fi r cl]; simpl.
+  intros H1 H2. destruct w as [cs | id hc content | m fi r cl |]; simpl.
   - unfold count. simpl. now rewrite H2.
   - unfold count. simpl. rewrite H2. destruct hc; reflexivity.
   - destruct (iter_rest m st r) as [c raised]. unfold count. simpl. rewrite H2.
     destruct raised; simpl; rewrite ?H1; destruct cl; reflexivity.
+  - reflexivity.
 Qed.
 
 Lemma count_closer_le (w : wret) :
@@ -348,7 +372,9 @@ Qed.
 
 Lemma close_at_most_once p : count is_close (all_events (wsgi env eh p)) <= 1.
 Proof.
-  destruct (wsgi_cases p) as [evH st0 o w0 st wrote hl Hh Hc Hl | evH st0 o Hh Hc | evH st0 o w0 st wrote Hh Hc Hl].
+  destruct (wsgi_cases p) as [evH st0 o w0 st wrote hl Hh Hc Hl | evH st0 o Hh Hc | evH st0 o w0 st wrote Hh Hc Hl
+                             | evH st0 o w0 st wrote Hh Hc He];
+    [| | |cbn [all_events]; rewrite (pre_not is_close evH pre_no_close (handle_pre _ _ _ _ Hh)); lia].
   - cbn [all_events]. rewrite !count_app.
     rewrite (pre_not is_close evH pre_no_close (handle_pre _ _ _ _ Hh)).
     destruct (suppress st).
@@ -375,6 +401,8 @@ Lemma close_exactly_once p evH st0 o w0 st wrote id :
   count (is_close_of id) (all_events (wsgi env eh p)) = 1.
 Proof.
   intros Hh Hc Hl Hid. unfold wsgi, wsgi_tail, wsgi_tail_gen. rewrite Hh, Hc.
+  assert (He : is_escape w0 = false) by (destruct w0; try reflexivity; discriminate Hid).
+  rewrite He.
   destruct (headerlist st) as [hl|]; [clear Hl|congruence].
   fold (suppress st). destruct (suppress st); cbn [all_events]; rewrite !count_app;
     rewrite (pre_not (is_close_of id) evH (pre_no_close_of id) (handle_pre _ _ _ _ Hh)).
@@ -393,7 +421,8 @@ Proof.
   destruct (handle p) as [[evH st0] o] eqn:Hh.
   pose proof (pre_not is_start evH pre_no_start (handle_pre _ _ _ _ Hh)) as H0.
   destruct (cast env eh cast_fuel 1 o st0) as [w0 st wrote| |].
-  - destruct (if nobody (s_code st) || e_head env then (close_events w0, WList []) else ([], w0)) as [evC w'] eqn:E.
+  - destruct (is_escape w0); [left; reflexivity|].
+    destruct (if nobody (s_code st) || e_head env then (close_events w0, WList []) else ([], w0)) as [evC w'] eqn:E.
     destruct (headerlist st); [left; reflexivity|]. right. eexists. split; [reflexivity|].
     rewrite count_app, H0. destruct (nobody (s_code st) || e_head env); inversion E; subst;
       [apply close_events_no_start|reflexivity].
@@ -421,6 +450,7 @@ Variable Pst : Z -> str -> Prop.       (* a (status code, status line) pair left
 Variable Pn : str -> Prop.             (* header names *)
 Variable Pv : str -> Prop.             (* header values and cookie renderings *)
 Variable Ptail : list item -> Prop.    (* the items after the first chunk of a bytes iterable *)
+Variable Pesc : Prop.                  (* raising an exception that the except clauses let through (KeyboardInterrupt, ...) *)
 
 Definition hs_ok (h : hdrs) : Prop := Forall (fun kv => Pn (fst kv) /\ Forall Pv (snd kv)) h.
 Definition cs_ok (j : jar) : Prop := Forall (fun kv => Pv (snd kv)) j.
@@ -432,6 +462,7 @@ Fixpoint wf_out (o : out) : Prop :=
       match first_real items with Some (OBytes _, rest) => Ptail rest | _ => True end
       /\ (fix go (l : list item) : Prop :=
             match l with [] => True | i :: t => wf_item i /\ go t end) items
+  | OEscape _ => Pesc
   | _ => True
   end
 with wf_item (i : item) : Prop :=
@@ -439,6 +470,7 @@ with wf_item (i : item) : Prop :=
   | IYield o => wf_out o
   | IRaiseHttp _ r => wf_resp r
   | IRaiseExc _ => True
+  | IRaiseEsc _ => Pesc
   end
 with wf_resp (r : resp) : Prop :=
   match r with
@@ -463,7 +495,7 @@ Definition wf_mut (m : mut) : Prop :=
   | MHook _ | MDelHeader _ | MClearHeaders | MEnv _ _ => True
   end.
 Definition wf_hres (h : hres) : Prop :=
-  match h with HRet o => wf_out o | HRaiseHttp _ r => wf_resp r | HRaiseExc _ => True end.
+  match h with HRet o => wf_out o | HRaiseHttp _ r => wf_resp r | HRaiseExc _ => True | HRaiseEsc _ => Pesc end.
 Definition wf_hprog (h : hprog) : Prop := Forall wf_mut (h_muts h) /\ wf_hres (h_res h).
 Definition wf_routing (rt : routing) : Prop :=
   match rt with
@@ -557,9 +589,10 @@ Definition wf_res (r : out + exn) : Prop :=
   | inl o => wf_out o
   | inr (XHttp _ x) => wf_resp x
   | inr (XExc _) => True
+  | inr (XEsc _) => Pesc
   end.
 Definition wf_xopt (x : option exn) : Prop :=
-  match x with Some (XHttp _ r) => wf_resp r | _ => True end.
+  match x with Some (XHttp _ r) => wf_resp r | Some (XEsc _) => Pesc | _ => True end.
 
 Lemma run_prog_ok h st : wf_hprog h -> st_ok st -> st_ok (fst (run_prog h st)) /\ wf_res (snd (run_prog h st)).
 Proof.
@@ -669,10 +702,11 @@ Proof.
   destruct (run_hooks EvHookA (after_call_list p) st2) as [[evA st3] xA] eqn:HA.
   destruct (run_hooks_ok _ _ _ _ _ _ (after_call_list_ok p Ha) S2 HA) as [S3 X3].
   intros H. inversion H; subst. split; [exact S3|].
-  destruct xA as [[e r|j]|].
+  destruct xA as [[e r|j|b]|].
   - exact X3.
   - apply wf_handle500.
-  - destruct resM as [o'|[e r|j]]; [exact R2|exact R2|apply wf_handle500].
+  - exact X3.
+  - destruct resM as [o'|[e r|j|b]]; [exact R2|exact R2|apply wf_handle500|exact R2].
 Qed.
 
 (* ---- the casting loop preserves the invariant ---- *)
@@ -680,10 +714,12 @@ Variable env : cenv.
 Variable eh : Z -> option (resp -> ehres).
 (* custom error handlers return well-formed values when given well-formed errors *)
 Hypothesis eh_wf : forall c h r o, eh c = Some h -> wf_resp r -> h r = ERet o -> wf_out o.
+(* ... and raise such exceptions only where the program may *)
+Hypothesis eh_esc : forall c h r, eh c = Some h -> wf_resp r -> h r = ERaise false -> Pesc.
 Hypothesis Ptail_nil : Ptail [].
 
 Definition w_ok (w : wret) : Prop :=
-  match w with WIter MBytes _ rest _ => Ptail rest | _ => True end.
+  match w with WIter MBytes _ rest _ => Ptail rest | WEscape => Pesc | _ => True end.
 
 Definition step_inv (sr : step_res) : Prop :=
   match sr with
@@ -713,11 +749,11 @@ Lemma peek_ok items close st :
 Proof.
   intros Hw Ht S. induction items as [|i rest IH]; cbn [peek].
   - split; [exact I|exact S].
-  - inversion Hw as [|? ? Hi Hrest]; subst. destruct i as [o|e r|j].
+  - inversion Hw as [|? ? Hi Hrest]; subst. destruct i as [o|e r|j|b].
     + destruct (falsy o) eqn:Hf.
       * apply IH; [exact Hrest|]. rewrite first_real_falsy in Ht by exact Hf. exact Ht.
       * simpl in Ht. rewrite Hf in Ht.
-        destruct o as [|s|b|e r|id hc hi c ty|id hc its ty|ty ej]; cbv beta iota.
+        destruct o as [|s|b|e r|id hc hi c ty|id hc its ty|ty ej|b0]; cbv beta iota.
         -- discriminate Hf.
         -- destruct (encode st s); [split; [exact S|exact I]|exact I].
         -- split; [exact S|exact Ht].
@@ -725,8 +761,10 @@ Proof.
         -- split; [apply wf_unsupported|exact S].
         -- split; [apply wf_unsupported|exact S].
         -- split; [apply wf_unsupported|exact S].
+        -- split; [apply wf_unsupported|exact S].
     + split; [exact Hi|exact S].
     + split; [apply wf_unhandled|exact S].
+    + split; [exact Hi|exact S].
 Qed.
 
 Lemma done_bytes_ok b st : st_ok st -> step_inv (done_bytes b st).
@@ -741,7 +779,7 @@ Proof.
   - split; [|exact I]. apply st_ok_hs; [exact S|].
     apply hs_ok_setdefault; [exact Pn_cl| |apply S].
     change (lit "0") with (dec_str_of_nat 0). apply Pv_dec.
-  - destruct o as [|s|b|e r|id hc hi c ty|id hc its ty|ty ej]; cbv beta iota.
+  - destruct o as [|s|b|e r|id hc hi c ty|id hc its ty|ty ej|b0]; cbv beta iota.
     + exact I.
     + destruct (encode st s); [apply done_bytes_ok; exact S|exact I].
     + apply done_bytes_ok; exact S.
@@ -749,7 +787,7 @@ Proof.
       pose proof (st_ok_apply r st Hr S) as S1.
       destruct e; cbv beta iota.
       * destruct (eh (r_code r)) as [h|] eqn:He.
-        -- destruct (h r) as [o'|] eqn:Hh; [|exact I].
+        -- destruct (h r) as [o'|[|]] eqn:Hh; [|exact I|split; [exact S1|eapply eh_esc; eassumption]].
            split; [eapply eh_wf; eassumption|exact S1].
         -- destruct (default_eh env r (apply r st)) as [[pg st2]|] eqn:Hd; [|exact I].
            split; [exact I|eapply default_eh_ok; eassumption].
@@ -763,6 +801,7 @@ Proof.
     + destruct Hw as [Ht Hits]. apply wf_items_go in Hits.
       apply peek_ok; assumption.
     + split; [apply wf_unhandled|exact S].
+    + destruct b0; [exact I|split; [exact S|exact Hw]].
 Qed.
 
 Lemma step_ok cnt o st : wf_out o -> st_ok st -> step_inv (step env eh cnt o st).
